@@ -638,3 +638,22 @@ package graphql
 //@   ensures old(len(m.fields)) == old(len(m.Values)) ==> len(m.fields) == len(m.Values)
 //@   ensures len(m.Values) == old(len(m.Values)) + 1
 //@   modifies FieldSet.fields FieldSet.Values elems
+
+// ---------------------------------------------------------------- C08: Omittable as an output value
+// MarshalGQL/MarshalGQLContext have no error result: they either write the value or fail loudly (panic, contained by
+// the server's recover hook - C04), never return after a failed marshal having written nothing.
+//@ trusted (ContextMarshaler).MarshalGQLContext(ctx, w) (err)
+//@ func (Omittable[T]).MarshalGQL [C08]
+//@   replay omittableMarshal.go.tmpl
+//@   ghost failed = false
+//@   at! `json.Marshal(value)` ghost failed = callres1 != nil
+//@   at! `marshaler.MarshalGQLContext(context.Background(), w)` ghost failed = callres0 != nil
+//@   callsite Write: requires !failed
+//@   ensures !failed
+//@ func (Omittable[T]).MarshalGQLContext [C08]
+//@   replay omittableMarshal.go.tmpl
+//@   ghost failed = false
+//@   at! `json.Marshal(value)` ghost failed = callres1 != nil
+//@   at! `marshaler.MarshalGQLContext(ctx, w)` ghost failed = callres0 != nil
+//@   callsite Write: requires !failed
+//@   ensures !failed
